@@ -545,12 +545,17 @@ Fixpoint lookup_id (id : list Z) (t : list (list Z * Z)) : option Z :=
   | (k, w) :: t' => if zlist_eqb id k then Some w else lookup_id id t'
   end.
 
-(** ValueFromBytes(id, b): the raw value (the reader runs over [b]) *)
+(** ValueFromBytes(id, b): the raw value (the reader runs over [b]).  Since the
+    repair 4a8d65e in /repo a value with bytes left over after the register's
+    width is refused ([buf.Len() != 0] after the read; the reader runs over [b],
+    so that is [w < len b]); before it the trailing bytes were ignored. *)
 Definition value_from_bytes (id : list Z) (b : list Z) : rd (list Z) :=
   if zlist_eqb id ID_PUBKEY then
     (if lenZ b =? 32 then ret b else fail E_OTHER)
   else match lookup_id id reg_width_table with
-       | Some w => v <- read_le w ;; ret [if zlist_eqb id ID_ACM_STATUS then v mod 4294967296 else v]
+       | Some w => v <- read_le w ;;
+                   if w <? lenZ b then fail E_OTHER
+                   else ret [if zlist_eqb id ID_ACM_STATUS then v mod 4294967296 else v]
        | None => fail E_OTHER
        end.
 
